@@ -162,3 +162,30 @@ def _mk_sigblk(rnd):
     b._srk_assets_offset = b._certificate_offset = b._blob_offset = b.signature_offset = 0
     b.length = -1
     return b
+
+
+# ---- container header length: header + image array entries + signature block (if any) ------------------------------------------------------
+from spsdk.image.ahab.ahab_container import AHABContainer  # noqa: E402
+from spsdk.image.ahab.ahab_iae import ImageArrayEntry as _IAE  # noqa: E402
+
+concrete_ok("spsdk.image.ahab.ahab_abstract_interfaces:Container.fixed_length", "spsdk.image.ahab.ahab_container:AHABContainerBase.format",
+            "spsdk.image.ahab.ahab_iae:ImageArrayEntry.format")
+
+
+def CONTAINER(k):
+    return Obj(AHABContainer, image_array=ListOf(Obj(_IAE), k), signature_block=Optional[Obj(AbsPart, _g_len=Range(16, 1 << 16))], IAE_TYPE=Const(_IAE))
+
+
+@contract("spsdk.image.ahab.ahab_container:AHABContainer.header_length")
+def _(self: Union[CONTAINER(0), CONTAINER(1), CONTAINER(3)]) -> int:
+    returns(16 + 128 * len(self.image_array) + (self.signature_block._g_len if self.signature_block is not None else 0),
+            label="header-plus-entries-plus-signature-block-if-any")
+    pure()
+    sample_with(lambda rnd: {"self": _mk_container(rnd)})
+
+
+def _mk_container(rnd):
+    c = object.__new__(AHABContainer)
+    c.image_array = [object() for _ in range(rnd.choice([0, 1, 3]))]
+    c.signature_block = AbsPart(rnd.choice([16, 100, 344])) if rnd.random() < 0.6 else None
+    return c
